@@ -94,6 +94,7 @@ type recorder struct {
 	shutdown   bool
 	stopLogged bool
 	dialUDP    bool
+	curCall    string         // handler API call in progress on the loop thread (for oracle signatures)
 	ptr2fd     map[uint64]int // poll_opt: epoll data (attachment pointer) -> descriptor it was registered for
 	suppress   bool           // loop-thread system calls made by the harness's own extra actions are not part of the trace
 	acceptGate chan struct{}  // when set, the loop thread waits here before accept(2)
@@ -256,6 +257,9 @@ func (r *recorder) checkOwned(c *vunix.Call, fd int, g int64) {
 		name := c.Name
 		if name == "epoll_ctl" {
 			name += map[int]string{unix.EPOLL_CTL_ADD: "-add", unix.EPOLL_CTL_MOD: "-mod", unix.EPOLL_CTL_DEL: "-del"}[c.Arg]
+		}
+		if who == "loop" && r.curCall != "" && (name == "sendto" || name == "send") {
+			name += "@" + r.curCall
 		}
 		r.failLocked("fd-not-owned", fmt.Sprintf("%s:%s", who, name),
 			fmt.Sprintf("%s on descriptor %d which the framework does not own at this point", c.Name, fd))
